@@ -280,12 +280,18 @@ Fixpoint slookup (t : stable) (v m : bytes) : bytes :=
   | (v', m', sg) :: t' => if bytes_eqb v v' && bytes_eqb m m' then sg else slookup t' v m
   end.
 
-Record sent := { s_params : rparams; s_text : bytes; s_grams : res (list bytes) }.  (* observed rend output *)
+Record sent := { s_params : rparams;            (* r_size = the effective .size observed *)
+                 s_req : option nat;            (* size requested from the setter; None = default MaxGramSize *)
+                 s_text : bytes; s_grams : res (list bytes) }.  (* observed rend output *)
 
 Record case20 := { k_sign : stable; k_sent : list sent; k_rx : case }.
 
 Definition check_sent (t : stable) (s : sent) : bool :=
-  res_eqb (list_eqb bytes_eqb) (rend (slookup t) (s_params s) (s_text s)) (s_grams s).
+  res_eqb (list_eqb bytes_eqb) (rend (slookup t) (s_params s) (s_text s)) (s_grams s)
+  && match s_req s with
+     | Some q => Nat.eqb (r_size (s_params s)) (eff_size (s_params s) q)
+     | None => Nat.leb (min_size (s_params s)) (r_size (s_params s))
+     end.
 
 Definition check_case20 (c : case20) : bool :=
   forallb (check_sent (k_sign c)) (k_sent c) && check_case (k_rx c).
